@@ -2,6 +2,7 @@ package sim
 
 import (
 	"fmt"
+	"strings"
 	"time"
 
 	"berty.tech/go-orbit-db/iface"
@@ -44,6 +45,29 @@ func scenC19(k *K) {
 		}
 	}
 	restChecks := 0
+	remoteHeadsFault := false
+	// 1 run in 3: the replicators' progress events are held back (the goroutine that forwards
+	// them is slow) and let go by the kernel one at a time, so that the end of a replication
+	// is handled before the progress of its last fetches
+	lateProgress := k.C.Chance(1, 3)
+	holdProgress := func(on bool) {
+		if !lateProgress {
+			return
+		}
+		if on {
+			k.AlwaysPark = func(pt string, owner interface{}) bool { return pt == "replicator.before-progress-emit" }
+			k.InstallHooks(nil)
+			k.F.Release = 2
+		} else {
+			k.AlwaysPark = nil
+			UninstallHooks()
+			k.ReleaseAllParks()
+		}
+	}
+	holdProgress(true)
+	if lateProgress {
+		k.W.Stat("mode:late-progress-events")
+	}
 	atRest := func(where string) {
 		for i, s := range c.Stores {
 			if s == nil {
@@ -77,7 +101,24 @@ func scenC19(k *K) {
 		}
 	}
 	for i := 0; i < nops; i++ {
-		switch k.C.Weighted([]int{8, 2, 1, 1, 2, 1}) {
+		switch k.C.Weighted([]int{8, 2, 1, 1, 2, 1, 1}) {
+		case 6:
+			// the next write of the merged heads to the cache fails on one replica (disk error
+			// at the end of a merge): the entries are in its log all the same
+			if n > 1 {
+				nd := c.Peers[k.C.Intn(n)].Node
+				k.W.mu.Lock()
+				k.W.DiskFault = func(on *Node, kind, space, key string) error {
+					if on == nd && kind == "cache-put" && strings.HasSuffix(key, "_remoteHeads") {
+						k.W.DiskFault = nil
+						k.W.stat("merge-heads-write-failed")
+						return fmt.Errorf("sim: disk error on %s", key)
+					}
+					return nil
+				}
+				k.W.mu.Unlock()
+				remoteHeadsFault = true
+			}
 		case 5:
 			// a local write whose cache write fails (disk error): the call reports the error, the
 			// entry is in the log all the same, and the status must account for it
@@ -157,12 +198,20 @@ func scenC19(k *K) {
 				}
 			}
 		case 3:
+			holdProgress(false)
 			if k.Settle(60*time.Second, 1500, c.AllIdle) {
 				atRest(fmt.Sprintf("mid-run rest after op %d", i))
 			}
+			holdProgress(true)
 		}
 		k.Steps(k.C.Intn(6))
 	}
+	if remoteHeadsFault {
+		k.W.mu.Lock()
+		k.W.DiskFault = nil
+		k.W.mu.Unlock()
+	}
+	holdProgress(false)
 	if k.Settle(120*time.Second, 4000, c.AllIdle) {
 		atRest("final rest")
 	}
